@@ -111,7 +111,8 @@ func (rp *runnablePacker[I, O, TOption]) toComposableRunnable() *composableRunna
 
 	i := func(ctx context.Context, input any, opts ...any) (output any, err error) {
 		in, ok := input.(I)
-		if !ok {
+		if !ok && !(input == nil && inputType.Kind() == reflect.Interface) {
+			// a nil value is the (valid) nil value of an interface type I: in is then its zero value
 			panic(newUnexpectedInputTypeErr(inputType, reflect.TypeOf(input)))
 		}
 
